@@ -234,6 +234,10 @@ def check(prop, tier):
     if prop == "C13":
         import golden
         extra_cov, extra_viol = golden.run(wd)
+    if prop == "C09":
+        # "a forged user key" is one of the documented error causes: the tamper kinds of UskMac.tla
+        import satellites
+        extra_viol, extra_cov = satellites.c08_viols(tier, wd, "C09")
     if prop == "C16":
         import satellites
         extra_viol, extra_cov = satellites.c16_fresh(tier, wd)
